@@ -110,7 +110,7 @@ def _lark_ns():
 
 def _paths(d, cfg, gen=1):
     base = os.path.join(d, cfg.replace('/', '__').replace('+', '_').replace(':', '_'))
-    return {'save': '%s.g%d.save' % (base, gen), 'cache': base + '.cache', 'sa': base + '_sa.py', 'sac': base + '_sac.py'}
+    return {'save': '%s.g%d.save' % (base, gen), 'cache': base + '.cache', 'sa': base + '_sa.py', 'sac': base + '_sac.py', 'sacli': base + '_sacli.py', 'gfile': base + '.lark'}
 
 
 def spec_of(cfg):
@@ -177,6 +177,26 @@ def node(job):
                         gen_standalone(q, out=s, compress=comp)
                         with open(P[key], 'w') as f:
                             f.write(s.getvalue())
+                if st.get('cli'):
+                    # the documented way: python -m lark.tools.standalone grammar.lark -o module.py [flags]
+                    import subprocess, sys
+                    with open(P['gfile'], 'w') as f:
+                        f.write(e.grammar)
+                    o = plain
+                    args = [sys.executable, '-m', 'lark.tools.standalone', P['gfile'], '-o', P['sacli'], '-l', o.get('lexer', 'contextual')]
+                    starts = o.get('start', 'start')
+                    for s_ in ([starts] if isinstance(starts, str) else starts):
+                        args += ['-s', s_]
+                    for flag, default in (('keep_all_tokens', False), ('propagate_positions', False), ('maybe_placeholders', True), ('use_bytes', False), ('regex', False)):
+                        if o.get(flag, default):
+                            args.append('--' + flag)
+                    if st.get('compress_cli'):
+                        args.append('-c')
+                    env = dict(os.environ)
+                    env['PYTHONPATH'] = os.path.dirname(os.path.dirname(os.path.abspath(__import__('lark').__file__)))
+                    r = subprocess.run(args, capture_output=True, text=True, env=env, timeout=300)
+                    if r.returncode != 0:
+                        raise RuntimeError('standalone command line failed: ' + r.stderr[-300:])
                 tr[cfg + ':built-direct'] = beh(p, e, probes, _lark_ns())
             elif do == 'direct':
                 tr[cfg + ':direct'] = beh(Lark(e.grammar, **opts), e, probes, _lark_ns())
@@ -194,8 +214,8 @@ def node(job):
                 t = beh(p, e, probes, _lark_ns())
                 t.append({'cache_untouched': open(P['cache'], 'rb').read() == before})
                 tr[cfg + ':cache'] = t
-            elif do in ('standalone', 'standalone_compressed'):
-                path = P['sa' if do == 'standalone' else 'sac']
+            elif do in ('standalone', 'standalone_compressed', 'standalone_cli'):
+                path = P[{'standalone': 'sa', 'standalone_compressed': 'sac', 'standalone_cli': 'sacli'}[do]]
                 m = types.ModuleType('sa_' + os.path.basename(path)[:-3])
                 exec(compile(open(path).read(), path, 'exec'), m.__dict__)
                 kw = dict(user)
